@@ -209,10 +209,44 @@ def overlay_file():
             if fn.endswith(".go"):
                 rel = os.path.relpath(d, base)
                 rep[os.path.join(REPO, rel, "zz_verif_" + fn)] = os.path.join(d, fn)
+    rep.update(instrumented())
     p = os.path.join(BUILD, "overlay.json")
     with open(p, "w") as f:
         json.dump({"Replace": rep}, f, indent=1, sort_keys=True)
     return p
+
+
+INSTR_FAILED = {}
+
+
+def instrumented():
+    """Tie T3: tools/instr/<name>.json = {"file": rel path, "mutex": "a,b"}; the file is replaced
+    (overlay only) by a copy regenerated from the CURRENT source with yield points before every
+    atomic access / lock acquisition (tools/instrument). If the instrumenter cannot handle the
+    current source the original file is used and the failure is recorded in INSTR_FAILED (the
+    properties that rely on it then report a broken tie)."""
+    d = os.path.join(ROOT, "tools", "instr")
+    rep = {}
+    if not os.path.isdir(d):
+        return rep
+    tool = os.path.join(BUILD, "instrument")
+    src = os.path.join(ROOT, "tools", "instrument")
+    if (not os.path.exists(tool)) or os.path.getmtime(tool) < os.path.getmtime(os.path.join(src, "main.go")):
+        rc, o = sh([GO, "build", "-o", tool, "."], cwd=src, env=GOENV)
+        if rc != 0:
+            raise Broken("tools/instrument does not build", o)
+    os.makedirs(os.path.join(BUILD, "instr"), exist_ok=True)
+    for fn in sorted(os.listdir(d)):
+        if not fn.endswith(".json"):
+            continue
+        spec = json.load(open(os.path.join(d, fn)))
+        out = os.path.join(BUILD, "instr", fn[:-5] + ".go")
+        rc, o = sh([tool, "-in", os.path.join(REPO, spec["file"]), "-out", out, "-mutex", spec.get("mutex", "")])
+        if rc != 0:
+            INSTR_FAILED[fn[:-5]] = o.strip()
+            continue
+        rep[os.path.join(REPO, spec["file"])] = out
+    return rep
 
 
 def modfile():
